@@ -47,6 +47,8 @@ def donor_sp(i):
 
 
 def do_doc_op(handle, op, owner=None, donor=None):
+    """handle: a callable returning the document (fetched only by the operations that go through it: a whole
+    assignment by a process that never looked at the document must stay exactly that)."""
     kind = op[0]
     if kind == "assign":
         # whole-document assignment through the property setter (job.doc = X / project.doc = X)
@@ -56,6 +58,7 @@ def do_doc_op(handle, op, owner=None, donor=None):
         # ... where X is the live document of another job (dst.doc = src.doc)
         owner.doc = donor.doc
         return
+    handle = handle()
     if kind == "setitem":
         handle[op[1]] = op[2]
     elif kind == "update":
@@ -296,14 +299,13 @@ class Engine(EngineBase):
             return project.open_job(donor_sp(i)) if op[0] == "assign_handle" else None
 
         if t == "projdoc":
-            h = project.doc
             op = sc["docs"][0]["op"]
             dn = donor(0, op)
-            return lambda: do_doc_op(h, op, project, dn)
+            return lambda: do_doc_op(lambda: project.doc, op, project, dn)
         handles = []
         for i, d in enumerate(sc["docs"]):
             job = project.open_job(sc["jobs"][i % len(sc["jobs"])])
-            handles.append((job.doc, d["op"], job, donor(i, d["op"])))
+            handles.append(((lambda job=job: job.doc), d["op"], job, donor(i, d["op"])))
         if t == "jobdoc":
             h, op, job, dn = handles[0]
             return lambda: do_doc_op(h, op, job, dn)
